@@ -12,7 +12,7 @@ ASSUMPTIONS = [
 SHAPES = ['1C_MC', '1_M', '1C_1C', '1_1_phr', 'refl', 'refl_M', 'assoc', 'assoc_1', 'subsuper', 'two_rels', 'comp_key']
 OPS = ['relate_st', 'relate_ts', 'unrelate_st', 'unrelate_ts', 'relate_unrelate', 'delete_s', 'delete_t',
        'relate_badrel', 'unrelate_badrel', 'relate_badphrase', 'unrelate_badphrase', 'relate_none',
-       'unrelate_none', 'relate_wrongkinds', 'new']
+       'unrelate_none', 'relate_wrongkinds', 'new', 'relate_nophrase', 'unrelate_nophrase']
 
 
 def conditions(tier, seed):
@@ -22,6 +22,8 @@ def conditions(tier, seed):
             pool = 2
             if op == 'relate_wrongkinds' and sh.startswith('refl'):
                 continue
+            if op.endswith('_nophrase') and sh not in ('1_1_phr', 'refl', 'refl_M'):
+                continue      # only shapes whose ends carry phrases
             if tier == 'thorough' and sh in ('1C_MC', '1C_1C', 'refl', 'refl_M') and op in (
                     'relate_st', 'relate_ts', 'unrelate_st', 'unrelate_ts', 'delete_s', 'delete_t', 'relate_unrelate'):
                 pool = 3
